@@ -43,6 +43,10 @@ func orient(r [][2]int, o int) [][2]int {
 }
 
 // starRing: simple ring, strictly increasing exact angle about centre c2/2 (c2 in half units), grid 0..6
+// starBand: when set, starRing takes its vertices from the outer band of the grid only (a fat ring whose
+// middle is free for holes)
+var starBand bool
+
 func starRing(c *ctx, k int, c2 [2]int, span int) [][2]int {
 	type pa struct {
 		p    [2]int
@@ -52,6 +56,10 @@ func starRing(c *ctx, k int, c2 [2]int, span int) [][2]int {
 	var ps []pa
 	for i := 0; i < k; i++ {
 		p := [2]int{c.rng.Intn(span + 1), c.rng.Intn(span + 1)}
+		if starBand && p[0] > 1 && p[0] < span-1 && p[1] > 1 && p[1] < span-1 {
+			i--
+			continue
+		}
 		x, y := 2*p[0]-c2[0], 2*p[1]-c2[1]
 		if x == 0 && y == 0 {
 			continue
@@ -243,20 +251,30 @@ func init() {
 				}
 				poly := append([][][2]int{closed(scale60(outer))}, holes...)
 				c16Smart(c, []string{"Polygon", "Geometry", "MultiPolygon"}[c.rng.Intn(3)], [4]int{bxl * S, -1 * S, 8 * S, (top + 1) * S}, [][][][2]int{poly}, o)
-			case 2: // polygon with an interior hole: a small square about the centre, kept only if it lies strictly inside
+			case 2, 8: // polygon with an interior hole: a small square about the centre, kept only if it lies strictly inside
 				hole := [][2]int{{3, 3}, {3, 4}, {4, 4}, {4, 3}}
 				if c.rng.Intn(2) == 0 { // any unit square of the grid (its corners level with ring vertices on either side)
 					hx, hy := 1+c.rng.Intn(5), 1+c.rng.Intn(5)
 					hole = [][2]int{{hx, hy}, {hx, hy + 1}, {hx + 1, hy + 1}, {hx + 1, hy}}
 				}
+				// any vertex of the square may come first (the owner of a hole is looked up through its first vertex)
+				rot := c.rng.Intn(4)
+				hole = append(append([][2]int{}, hole[rot:]...), hole[:rot]...)
 				if o < 0 {
 					hole = reverse2(hole)
 				}
+				starBand = true
+				for try := 0; try < 30 && !squareInside(ring, hole); try++ { // look for a ring that contains the square
+					if r2 := starRing(c, 7+c.rng.Intn(6), [2]int{7, 7}, 6); r2 != nil {
+						ring = orient(r2, o)
+					}
+				}
+				starBand = false
 				if !squareInside(ring, hole) {
 					continue
 				}
 				// (through MultiPolygon too: Polygon attaches the holes of a one-piece result without looking for the owner)
-				c16Smart(c, []string{"Polygon", "Geometry", "MultiPolygon"}[c.rng.Intn(3)], box, [][][][2]int{{closed(scale60(ring)), closed(scale60(hole))}}, o)
+				c16Smart(c, []string{"Polygon", "Geometry", "MultiPolygon", "MultiPolygon"}[c.rng.Intn(4)], box, [][][][2]int{{closed(scale60(ring)), closed(scale60(hole))}}, o)
 			case 3: // multipolygon: two stars side by side, in [0,3] x [0,3] and [3,6] x [0,3] (they can touch along x = 3
 				// only), each possibly with a small interior hole; boxes that swallow one member whole arise often
 				r1, r2 := starRing(c, 3+c.rng.Intn(6), [2]int{3, 3}, 3), starRing(c, 3+c.rng.Intn(6), [2]int{3, 3}, 3)
